@@ -655,7 +655,16 @@ class ArrayMapper(Mapper):
 
     def to_schema(self, definitions, serialization_mapper):
         value = self.value
-        if isinstance(value, Tuple):
+        if isinstance(value, Tuple) and len(value.items) == 1:
+            # Tuple[X]: any number of elements, every one of them an X
+            params = {
+                "type": "array",
+                "uniqueItems": value.uniqueItems,
+                "items": convert_to_schema(
+                    value.items[0], definitions, serialization_mapper
+                ),
+            }
+        elif isinstance(value, Tuple):
             params = {
                 "type": "array",
                 "uniqueItems": value.uniqueItems,
